@@ -20,6 +20,11 @@ func CoreFragments() map[string]*Fragment {
 			leaf("one", "if", e1, "descr"),
 			leaf("1g", "if", e1, "speed"),
 		}},
+		{Name: "fa1", Leaves: []Leaf{ // differs from fa in exactly one leaf value
+			leaf("r9", "sys", "hostname"),
+			leaf("one", "if", e1, "descr"),
+			leaf("1g", "if", e1, "speed"),
+		}},
 		{Name: "fb", Leaves: []Leaf{
 			leaf("r2", "sys", "hostname"),
 			leaf("two", "if", e1, "descr"),
@@ -36,6 +41,10 @@ func CoreFragments() map[string]*Fragment {
 			leafLL([]string{"b", "c"}, "sys", "dns"),
 			leafEmpty("sys", "banner"),
 			leaf("x", "ifx", K{"name", "e1"}, "descr"),
+		}},
+		{Name: "fp", Leaves: []Leaf{ // only a child below the presence container that fd defines itself
+			leaf("hello", "sys", "banner", "text"),
+			leafLL([]string{"a", "b"}, "sys", "dns"),
 		}},
 		{Name: "fe", Leaves: []Leaf{ // key-only entry
 			leaf("e2", "if", e2, "name"),
@@ -148,7 +157,10 @@ func CoreMulti() []Op {
 	}
 }
 
-var CoreFragOrder = []string{"fa", "fb", "fc", "fd", "fe", "fg", "fh"}
+var CoreFragOrder = []string{"fa", "fa1", "fb", "fc", "fd", "fp", "fe", "fg", "fh"}
+
+// DeepFragOrder is the reduced alphabet used for one more level of depth.
+var DeepFragOrder = []string{"fa", "fa1", "fb", "fd", "fp"}
 var MultiKeyFragOrder = []string{"mk4", "mk5", "mk1", "mk2", "mk3"}
 
 func mergeFrags(ms ...map[string]*Fragment) map[string]*Fragment {
